@@ -51,10 +51,7 @@ pub fn cohort_j(c: &omaha_client::protocol::Cohort) -> Value {
 
 pub fn uc_j(u: &UserCounting) -> Value {
     let UserCounting::ClientRegulatedByDate(d) = u;
-    match d {
-        Some(n) => int_json(*n as i128),
-        None => json!("None"),
-    }
+    opt_json(d.map(|n| int_json(n as i128)))
 }
 
 pub fn apps_j(apps: &[App]) -> Value {
@@ -70,21 +67,16 @@ pub fn apps_j(apps: &[App]) -> Value {
 
 pub fn pct_j(g: &World, t: &Option<PartialComplexTime>) -> Value {
     match t {
-        None => json!("None"),
+        None => json!({"w": [], "m": []}),
         Some(p) => {
             let (w, m) = p.destructure();
-            json!({"w": w.map(|x| g.wall_j(x)).unwrap_or(json!("None")),
-                   "m": m.map(|x| g.mono_j(x)).unwrap_or(json!("None"))})
+            json!({"w": opt_json(w.map(|x| g.wall_j(x))), "m": opt_json(m.map(|x| g.mono_j(x)))})
         }
     }
 }
 
 pub fn timing_j(g: &World, t: &Option<CheckTiming>) -> Value {
-    match t {
-        None => json!("None"),
-        Some(t) => json!({"time": pct_j(g, &Some(t.time)),
-                          "minwait": t.minimum_wait.map(dur_json).unwrap_or(json!("None"))}),
-    }
+    opt_json(t.map(|t| json!({"time": pct_j(g, &Some(t.time)), "minwait": opt_json(t.minimum_wait.map(dur_json))})))
 }
 
 pub fn sched_j(g: &World, s: &UpdateCheckSchedule) -> Value {
@@ -93,16 +85,14 @@ pub fn sched_j(g: &World, s: &UpdateCheckSchedule) -> Value {
 }
 
 pub fn ps_j(p: &ProtocolState) -> Value {
-    let poll = match p.server_dictated_poll_interval {
-        None => json!("None"),
-        Some(d) => {
-            if d.subsec_nanos() == 0 && d.as_secs() < (1 << 30) {
-                json!(d.as_secs())
-            } else {
-                json!(format!("@dur:{}ns", d.as_nanos()))
-            }
+    // whole seconds (clamped); a non-zero sub-second part is reported as -1 so it can never match
+    let poll = opt_json(p.server_dictated_poll_interval.map(|d| {
+        if d.subsec_nanos() == 0 {
+            int_json(d.as_secs() as i128)
+        } else {
+            json!(-1)
         }
-    };
+    }));
     json!({"poll": poll, "fails": int_json(p.consecutive_failed_update_checks as i128)})
 }
 
@@ -196,7 +186,7 @@ impl PolicyEngine for VPolicy {
             };
             CheckTiming {
                 time,
-                minimum_wait: ans["minwait"].as_u64().map(Duration::from_secs),
+                minimum_wait: ans["minwait"].get(0).and_then(|x| x.as_u64()).map(Duration::from_secs),
             }
         }
         .boxed()
@@ -387,52 +377,59 @@ pub struct VStorage(pub W);
 
 const TIME_KEYS: [&str; 3] = ["last_update_time", "update_first_seen_time", "update_finish_time"];
 
+/// Typed, shape-uniform projection of a stored value, by key.
 pub fn sval_j(key: &str, v: &SVal) -> Value {
-    match v {
-        SVal::I(i) => {
-            if TIME_KEYS.contains(&key) {
+    let is_ctr = key == "consecutive_failed_update_checks" || key == "consecutive_failed_install_attempts";
+    let is_str = key == "install_plan_id" || key == "target_version";
+    if TIME_KEYS.contains(&key) {
+        return match v {
+            SVal::I(i) => {
                 // micros since the epoch -> wall projection at microsecond precision
-                let us = *i as i128;
-                let rel = us - (BASE_SECS as i128) * 1_000_000;
-                let s = rel.div_euclid(1_000_000);
-                let sub = rel.rem_euclid(1_000_000);
-                if s.abs() < (1 << 30) {
-                    json!({"s": s as i64, "ns": (sub * 1000) as i64})
-                } else {
-                    json!(format!("@us:{}", i))
-                }
-            } else if key == "server_dictated_poll_interval" {
-                if *i >= 0 && *i % 1_000_000 == 0 && *i / 1_000_000 < (1 << 30) {
-                    json!(*i / 1_000_000)
-                } else {
-                    json!(format!("@us:{}", i))
-                }
-            } else {
-                int_json(*i as i128)
+                let rel = (*i as i128) - (BASE_SECS as i128) * 1_000_000;
+                json!({"s": int_json(rel.div_euclid(1_000_000)), "ns": (rel.rem_euclid(1_000_000) * 1000) as i64})
             }
-        }
-        SVal::S(s) => {
-            if let Ok(Value::Object(m)) = serde_json::from_str::<Value>(s) {
-                if m.contains_key("cohort") && m.contains_key("user_counting") {
-                    let mut c = Map::new();
-                    if let Some(co) = m["cohort"].as_object() {
-                        for (k, wire) in [("id", "cohort"), ("hint", "cohorthint"), ("name", "cohortname")] {
-                            if let Some(Value::String(x)) = co.get(wire) {
-                                c.insert(k.into(), json!(x));
-                            }
+            _ => json!({"s": 0, "ns": 0, "bad": true}),
+        };
+    }
+    if key == "server_dictated_poll_interval" {
+        return match v {
+            SVal::I(i) => json!({"s": int_json((*i as i128).div_euclid(1_000_000)), "exact": *i % 1_000_000 == 0}),
+            _ => json!({"s": 0, "exact": false, "bad": true}),
+        };
+    }
+    if is_ctr {
+        return match v {
+            SVal::I(i) => int_json(*i as i128),
+            _ => json!(-1),
+        };
+    }
+    if is_str {
+        return match v {
+            SVal::S(s) => json!(s),
+            _ => json!("@bad"),
+        };
+    }
+    // everything else is an app record
+    if let SVal::S(s) = v {
+        if let Ok(Value::Object(m)) = serde_json::from_str::<Value>(s) {
+            if m.contains_key("cohort") && m.contains_key("user_counting") {
+                let mut c = Map::new();
+                if let Some(co) = m["cohort"].as_object() {
+                    for (k, wire) in [("id", "cohort"), ("hint", "cohorthint"), ("name", "cohortname")] {
+                        if let Some(Value::String(x)) = co.get(wire) {
+                            c.insert(k.into(), json!(x));
                         }
                     }
-                    let uc = match m["user_counting"].get("ClientRegulatedByDate") {
-                        Some(Value::Number(n)) => int_json(n.as_i64().unwrap_or(-1) as i128),
-                        _ => json!("None"),
-                    };
-                    return json!({"cohort": Value::Object(c), "uc": uc});
                 }
+                let uc = match m["user_counting"].get("ClientRegulatedByDate") {
+                    Some(Value::Number(n)) => opt_json(Some(int_json(n.as_i64().unwrap_or(-1) as i128))),
+                    _ => json!([]),
+                };
+                return json!({"cohort": Value::Object(c), "uc": uc});
             }
-            json!(s)
         }
-        SVal::B(b) => json!(b),
     }
+    json!({"bad": true})
 }
 
 pub fn snap_j(m: &std::collections::BTreeMap<String, SVal>) -> Value {
@@ -600,20 +597,26 @@ impl Installer for VInstaller {
                     }
                 }
             }
-            let ans = peek.clone();
-            gate_op(&w, "inst.install", n, icall, peek).await;
-            let results: Vec<AppInstallResult<VInstErr>> = match ans["results"].as_array() {
-                Some(a) => a
-                    .iter()
-                    .enumerate()
-                    .map(|(i, r)| match r.as_str() {
-                        Some("d") => AppInstallResult::Deferred,
-                        Some("f") => AppInstallResult::Failed(VInstErr(format!("fail#{}", i + 1))),
-                        _ => AppInstallResult::Installed,
-                    })
-                    .collect(),
-                None => (0..plan.n_offered).map(|_| AppInstallResult::Installed).collect(),
-            };
+            // contract-conforming installer: exactly one result per offered app
+            let scripted: Vec<String> = peek["results"]
+                .as_array()
+                .map(|a| a.iter().map(|r| r.as_str().unwrap_or("i").to_string()).collect())
+                .unwrap_or_default();
+            let eff: Vec<String> = (0..plan.n_offered)
+                .map(|i| scripted.get(i).cloned().unwrap_or_else(|| "i".to_string()))
+                .collect();
+            let mut logged = peek.clone();
+            logged["results"] = json!(eff);
+            gate_op(&w, "inst.install", n, icall, logged).await;
+            let results: Vec<AppInstallResult<VInstErr>> = eff
+                .iter()
+                .enumerate()
+                .map(|(i, r)| match r.as_str() {
+                    "d" => AppInstallResult::Deferred,
+                    "f" => AppInstallResult::Failed(VInstErr(format!("fail#{}", i + 1))),
+                    _ => AppInstallResult::Installed,
+                })
+                .collect();
             ("ir".to_string(), results)
         }
         .boxed_local()
@@ -673,7 +676,7 @@ impl Installer for VInstaller {
                        "resp_apps": response.apps.iter().map(|a| a.id.clone()).collect::<Vec<_>>()})
             };
             let ans = op(&w, "inst.plan", call).await;
-            match ans.get("ok").and_then(|x| x.as_str()) {
+            match ans.get("ok").and_then(|x| x.get(0)).and_then(|x| x.as_str()) {
                 Some(id) => Ok(VPlan {
                     id: id.to_string(),
                     n_offered,
@@ -766,19 +769,27 @@ pub struct VHttp {
     pub os_version: String,
 }
 
-fn sopt(v: Option<&Value>) -> Value {
+/// string-typed field: the string, "None" when absent, "@<json>" when not a string
+fn sstr(v: Option<&Value>) -> Value {
     match v {
         Some(Value::String(s)) => json!(s),
-        Some(Value::Number(n)) => int_json(n.as_i64().unwrap_or(-1) as i128),
-        Some(Value::Bool(b)) => json!(b),
-        Some(other) => json!(other.to_string()),
+        Some(other) => json!(format!("@{}", other)),
         None => json!("None"),
     }
 }
 
+/// int-typed optional field: [] when absent, [n] when a number, [-1] otherwise
+fn sint(v: Option<&Value>) -> Value {
+    match v {
+        Some(Value::Number(n)) => json!([int_json(n.as_i64().unwrap_or(-1) as i128)]),
+        Some(_) => json!([-1]),
+        None => json!([]),
+    }
+}
+
 pub fn ev_proj(e: &Value) -> Value {
-    json!({"t": sopt(e.get("eventtype")), "r": sopt(e.get("eventresult")), "e": sopt(e.get("errorcode")),
-           "prev": sopt(e.get("previousversion")), "next": sopt(e.get("nextversion")),
+    json!({"t": sint(e.get("eventtype")), "r": sint(e.get("eventresult")), "e": sint(e.get("errorcode")),
+           "prev": sstr(e.get("previousversion")), "next": sstr(e.get("nextversion")),
            "dl": e.get("download_time_ms").is_some()})
 }
 
@@ -823,13 +834,13 @@ impl VHttp {
             match v.split_once(':') {
                 Some((kid, nonce)) => {
                     let hex64 = nonce.len() == 64 && nonce.bytes().all(|c| c.is_ascii_hexdigit() && !c.is_ascii_uppercase());
-                    json!({"kid": kid.parse::<i64>().map(|k| int_json(k as i128)).unwrap_or(json!(kid)),
-                           "nonce": g.token("nonce", nonce), "hex64": hex64})
+                    json!([{"kid": int_json(kid.parse::<i64>().unwrap_or(-1) as i128),
+                            "nonce": g.token("nonce", nonce), "hex64": hex64}])
                 }
-                None => json!({"kid": "malformed", "nonce": 0, "hex64": false}),
+                None => json!([{"kid": -1, "nonce": 0, "hex64": false}]),
             }
         } else {
-            json!("None")
+            json!([])
         };
         let last_is_cup = pairs.last().map(|p| p.starts_with("cup2key=")).unwrap_or(false);
         let url = json!({"base_ok": pre == bpre && other == bpairs, "cup2key": cup2key,
@@ -856,23 +867,24 @@ impl VHttp {
             let mut c = Map::new();
             for (k, wire) in [("id", "cohort"), ("hint", "cohorthint"), ("name", "cohortname")] {
                 if let Some(v) = a.get(wire) {
-                    c.insert(k.into(), sopt(Some(v)));
+                    c.insert(k.into(), sstr(Some(v)));
                 }
             }
             let uc = match a.get("updatecheck") {
                 Some(u) => {
                     kind = "uc";
-                    json!({"dis": u.get("updatedisabled").and_then(|x| x.as_bool()).unwrap_or(false),
-                           "same": u.get("sameversionupdate").and_then(|x| x.as_bool()).unwrap_or(false)})
+                    json!([{"dis": u.get("updatedisabled").and_then(|x| x.as_bool()).unwrap_or(false),
+                            "same": u.get("sameversionupdate").and_then(|x| x.as_bool()).unwrap_or(false),
+                            "nkeys": u.as_object().map(|o| o.len()).unwrap_or(99)}])
                 }
-                None => json!("None"),
+                None => json!([]),
             };
             let ping = match a.get("ping") {
                 Some(p) => {
                     any_ping = true;
-                    json!({"ad": sopt(p.get("ad")), "rd": sopt(p.get("rd"))})
+                    json!([{"ad": sint(p.get("ad")), "rd": sint(p.get("rd"))}])
                 }
-                None => json!("None"),
+                None => json!([]),
             };
             let evs: Vec<Value> = a
                 .get("event")
@@ -887,11 +899,11 @@ impl VHttp {
             if let Some(o) = a.as_object() {
                 for (k, v) in o {
                     if !known.contains(&k.as_str()) {
-                        extra.insert(k.clone(), sopt(Some(v)));
+                        extra.insert(k.clone(), sstr(Some(v)));
                     }
                 }
             }
-            apps.push(json!({"id": sopt(a.get("appid")), "ver": sopt(a.get("version")), "fp": sopt(a.get("fp")),
+            apps.push(json!({"id": sstr(a.get("appid")), "ver": sstr(a.get("version")), "fp": sstr(a.get("fp")),
                              "cohort": Value::Object(c), "uc": uc, "ping": ping, "ev": evs,
                              "extra": Value::Object(extra)}));
         }
@@ -913,11 +925,11 @@ impl VHttp {
             }
             (None, _) => json!({"present": false, "body_eq": false, "key_eq": false}),
         };
-        let reqj = json!({"proto": sopt(req.get("protocol")), "updater": sopt(req.get("updater")),
-                          "uver": sopt(req.get("updaterversion")), "src": sopt(req.get("installsource")),
-                          "ismachine": sopt(req.get("ismachine")),
-                          "rid": if rid.is_empty() { json!("None") } else { json!(g.token("rid", rid)) },
-                          "sid": if sid.is_empty() { json!("None") } else { json!(g.token("sid", sid)) },
+        let reqj = json!({"proto": sstr(req.get("protocol")), "updater": sstr(req.get("updater")),
+                          "uver": sstr(req.get("updaterversion")), "src": sstr(req.get("installsource")),
+                          "ismachine": req.get("ismachine") == Some(&json!(true)),
+                          "rid": if rid.is_empty() { json!(0) } else { json!(g.token("rid", rid)) },
+                          "sid": if sid.is_empty() { json!(0) } else { json!(g.token("sid", sid)) },
                           "rid_ok": braced_guid(rid), "sid_ok": braced_guid(sid), "os_ok": os_ok,
                           "apps": apps});
         (
